@@ -28,9 +28,14 @@ impl<C: Config, Q: Query> Snapshot<C, Q> {
         crate::verif_pause!("bp.start", Some(self.query_id()));
         // SAFETY: We are reading our own backward edges, which we've already
         // acquired the lock for.
-        let backward_edges = unsafe {
+        //
+        // The iterator holds the read locks of the set; it is drained before
+        // the next await so that no lock is held while this task is parked.
+        let backward_edges: Vec<_> = unsafe {
             self.engine().get_backward_edges_unchecked(self.query_id()).await
-        };
+        }
+        .into_iter()
+        .collect();
 
         let mut backward_projections = Vec::new();
         for query_id in backward_edges {
